@@ -170,7 +170,7 @@ func genE(r *vf.Run, pool *basePool, idx, k int) *input {
 		what = append(what, fmt.Sprintf("typeflag=%q", tf))
 		p.TarOK = false
 	case 4: // many entries
-		n := rng.Pick(100, 400)
+		n := rng.Pick(60, 200)
 		for i := 0; i < n; i++ {
 			ents = append(ents, rawEnt{H: tar.Header{Name: fmt.Sprintf("many/%d", i), Typeflag: tar.TypeReg, Mode: 0o644}, Body: []byte{byte(i)}})
 		}
